@@ -16,6 +16,7 @@ import Driver.WasmOps
 import Driver.HistOps
 import Driver.FileOps
 import Driver.PixOps
+import Driver.CompactOps
 import FastQr.Model.Version
 import FastQr.Model.Classify
 import FastQr.Spec.Capacity
@@ -83,6 +84,7 @@ def handle (prop : String) (line : String) : String :=
       | "hist" => opHist args res
       | "file" => opFile args res
       | "pix" => opPix args res
+      | "pushbits" => opPushBits args res
       | "threads" => opThreads args res
       | "wasmqr" => opWasmQr args res
       | _ => { spec := some s!"unknown-op:{op}" }
